@@ -14,7 +14,12 @@ from __future__ import annotations
 from core.loader import AnalysisError, Repo, norm
 from core.report import Result
 
-from . import c01, names
+from . import names
+
+try:  # the search model (owned by the C01 / search rules)
+    from .searchrules import run_search
+except ImportError:  # pragma: no cover - older layout
+    from .c01 import run_search
 from .common import reachable_funcs, stmt_of, where
 
 TYPES_MOD = "pytestarch.eval_structure.types"
@@ -100,7 +105,7 @@ def run(repo: Repo) -> Result:
     # R3: hierarchy-based sub-module sets (search model, owned by C01)
     tmp = Result("C01")
     try:
-        c01.run_search(repo, tmp)
+        run_search(repo, tmp)
         k = 0
         for o in tmp.obligations:
             if "get_all_submodules_of" in o.construct:
